@@ -1195,6 +1195,21 @@ impl<'a> Gen<'a> {
             }
             53..=57 => {
                 self.hit("trace");
+                if self.cfg.labels_total && self.cfg.aborts && self.r.chance(1, 3) {
+                    // the label is a VARIABLE whose only use is the trace; its (possibly failing)
+                    // definition is an ordinary `let` outside the trace and is evaluated under every
+                    // setting — dropping the trace must not drop the binding
+                    self.hit("trace-label-let-bound");
+                    let lt = match self.r.below(3) {
+                        0 => Ty::Int,
+                        1 => Ty::Bytes,
+                        _ => Ty::Bool,
+                    };
+                    let rhs = self.gen_expr(&lt, scope, d);
+                    let v = self.fresh();
+                    let body = self.gen_expr(ty, scope, d);
+                    return E::Let(v, bx(rhs), bx(E::Trace(bx(E::Var(v)), vec![], bx(body))));
+                }
                 let label = self.gen_label(scope, d);
                 let nargs = if self.r.chance(1, 3) { 1 + self.r.below(2) } else { 0 };
                 let args = (0..nargs).map(|_| self.gen_label(scope, d)).collect();
